@@ -165,6 +165,8 @@ class Gen:
             p = self.ph()
             e = ir.ConditionalZExpression(op, p)
             self.nest(e, p, a)
+            if isinstance(a, ir.BinaryCompExpression):
+                return e, ["condzcmp", op] + wa[2:]
             return e, ["condz", op, kind] + wa
         if k == "getf":
             a, wa = sub("ref")
